@@ -191,6 +191,7 @@ struct GenKeyword { int name; bool optional, numeric; };
 struct GenPattern { std::vector<GenKeyword> kw; bool query = false; bool common = false; std::string commonName; std::string text; };
 
 inline std::string patternText(const GenPattern &p) {
+    if (p.kw.empty() && !p.common && !p.text.empty()) return p.text;     // pattern given as text (fixed tables)
     if (p.common) return "*" + p.commonName + (p.query ? "?" : "");
     std::string t;
     for (size_t i = 0; i < p.kw.size(); i++) {
